@@ -306,6 +306,9 @@ func WithAnon(fn *ssa.Function) []*ssa.Function {
 // CellValue resolves a load from a capture cell: if v is *alloc or *freevar where the cell
 // is stored exactly once (in the defining function), return the stored value.
 func CellValue(v ssa.Value) ssa.Value {
+	if w := BoundRecvField(v); w != v {
+		return w
+	}
 	u, ok := v.(*ssa.UnOp)
 	if !ok || u.Op != token.MUL {
 		return v
@@ -374,6 +377,244 @@ func CellValue(v ssa.Value) ssa.Value {
 		return stored
 	}
 	return v
+}
+
+var pkgFuncsCache = map[*ssa.Package][]*ssa.Function{}
+
+// PkgFuncs lists the source functions, methods and function literals of a package (with bodies), in a stable order.
+func PkgFuncs(pkg *ssa.Package) []*ssa.Function {
+	if pkg == nil {
+		return nil
+	}
+	if out, ok := pkgFuncsCache[pkg]; ok {
+		return out
+	}
+	var out []*ssa.Function
+	seen := map[*ssa.Function]bool{}
+	add := func(fn *ssa.Function) {
+		for _, f := range WithAnon(fn) {
+			if !seen[f] && len(f.Blocks) > 0 {
+				seen[f] = true
+				out = append(out, f)
+			}
+		}
+	}
+	for _, name := range SortedKeys(pkg.Members) {
+		switch mem := pkg.Members[name].(type) {
+		case *ssa.Function:
+			add(mem)
+		case *ssa.Type:
+			for _, t := range []types.Type{mem.Type(), types.NewPointer(mem.Type())} {
+				ms := pkg.Prog.MethodSets.MethodSet(t)
+				for i := 0; i < ms.Len(); i++ {
+					if fn := pkg.Prog.MethodValue(ms.At(i)); fn != nil && fn.Pkg == pkg && fn.Synthetic == "" {
+						add(fn)
+					}
+				}
+			}
+		}
+	}
+	pkgFuncsCache[pkg] = out
+	return out
+}
+
+// BoundRecvField: v reads field f of the receiver of a method that is used as a method value in exactly one place
+// (x.m handed to a registration, a timer, a goroutine) where x is a struct literal: the value the literal gives f. Otherwise v.
+func BoundRecvField(v ssa.Value) ssa.Value {
+	var recv ssa.Value
+	var st *types.Struct
+	idx := -1
+	switch x := v.(type) {
+	case *ssa.Field:
+		recv, idx = x.X, x.Field
+		st, _ = x.X.Type().Underlying().(*types.Struct)
+	case *ssa.UnOp:
+		if fa, ok := x.X.(*ssa.FieldAddr); ok && x.Op == token.MUL {
+			recv, idx = fa.X, fa.Field
+			st, _ = Deref(fa.X.Type()).Underlying().(*types.Struct)
+			// a value receiver is copied into a local first: *local = w, and the local is only read
+			if al, isAl := fa.X.(*ssa.Alloc); isAl {
+				var whole ssa.Value
+				clean := true
+				for _, ref := range *al.Referrers() {
+					switch y := ref.(type) {
+					case *ssa.Store:
+						if y.Addr == ssa.Value(al) && whole == nil {
+							whole = y.Val
+						} else {
+							clean = false
+						}
+					case *ssa.FieldAddr:
+						for _, r2 := range *y.Referrers() {
+							if _, isLoad := r2.(*ssa.UnOp); !isLoad {
+								if _, isDbg := r2.(*ssa.DebugRef); !isDbg {
+									clean = false
+								}
+							}
+						}
+					case *ssa.DebugRef:
+					default:
+						clean = false
+					}
+				}
+				if clean && whole != nil {
+					recv = whole
+				}
+			}
+		}
+	}
+	prm, ok := recv.(*ssa.Parameter)
+	if !ok || st == nil || idx < 0 || idx >= st.NumFields() {
+		return v
+	}
+	fn := prm.Parent()
+	if fn == nil || fn.Signature.Recv() == nil || len(fn.Params) == 0 || fn.Params[0] != prm || fn.Pkg == nil {
+		return v
+	}
+	var bound ssa.Value
+	n := 0
+	for _, pf := range PkgFuncs(fn.Pkg) {
+		AllInstrs(pf, func(in ssa.Instruction) {
+			if mc, ok := in.(*ssa.MakeClosure); ok {
+				if w, ok := mc.Fn.(*ssa.Function); ok && w != fn && BoundTarget(w) == fn && len(mc.Bindings) == 1 {
+					bound = mc.Bindings[0]
+					n++
+				}
+			}
+			// a direct call of the method elsewhere: the receiver is not only the bound one
+			if cc := CallOf(in); cc != nil && StaticCallee(cc) == fn && pf.Synthetic == "" {
+				n += 2
+			}
+		})
+	}
+	if n != 1 || bound == nil {
+		return v
+	}
+	lit, ok := StructLit(bound)
+	if !ok {
+		return v
+	}
+	if val, ok := lit[FieldName(st.Field(idx))]; ok {
+		return val
+	}
+	return v
+}
+
+// LocalStructField reads through a struct that only carries values inside one function: fa addresses field i of a local struct
+// variable that does not escape (it is only stored to and read, never passed on or captured). If the variable is assigned once,
+// as a whole, from a call returning the struct, the result is (call, i) — the field plays the part of the i-th result of a
+// tuple; if the field is stored exactly once (a composite literal), the result is (stored value, -1). Otherwise (nil, 0).
+func LocalStructField(fa *ssa.FieldAddr) (ssa.Value, int) {
+	al, ok := fa.X.(*ssa.Alloc)
+	if !ok || al.Heap {
+		return nil, 0
+	}
+	var whole []ssa.Value
+	var fieldStores []ssa.Value
+	for _, ref := range *al.Referrers() {
+		switch y := ref.(type) {
+		case *ssa.Store:
+			if y.Addr != ssa.Value(al) {
+				return nil, 0
+			}
+			whole = append(whole, y.Val)
+		case *ssa.FieldAddr:
+			for _, r2 := range *y.Referrers() {
+				switch z := r2.(type) {
+				case *ssa.Store:
+					if z.Addr != ssa.Value(y) {
+						return nil, 0
+					}
+					if y.Field == fa.Field {
+						fieldStores = append(fieldStores, z.Val)
+					}
+				case *ssa.UnOp, *ssa.DebugRef:
+				default:
+					return nil, 0
+				}
+			}
+		case *ssa.UnOp, *ssa.DebugRef:
+		default:
+			return nil, 0
+		}
+	}
+	switch {
+	case len(whole) == 1 && len(fieldStores) == 0:
+		if call, ok := whole[0].(*ssa.Call); ok {
+			return call, fa.Field
+		}
+	case len(whole) == 0 && len(fieldStores) == 1:
+		return fieldStores[0], -1
+	}
+	return nil, 0
+}
+
+// IsKnown: fn is a function of the pinned tree's vocabulary (under its own or a new name).
+func IsKnown(fn *ssa.Function) bool {
+	return fn != nil && (KnownFuncs[fn.String()] || PinnedFull(fn) != fn.String())
+}
+
+// LogicalOwner returns the function on whose behalf fn runs: a helper of the module that the rules do not know by name
+// (unexported, not in the pinned vocabulary), that has exactly one static call site — a plain call, not go or defer — and is
+// never used as a value, is a piece cut out of its caller and belongs to it (transitively, at most four levels). The second result
+// lists the call sites from the owner down to fn.
+func LogicalOwner(fn *ssa.Function) (*ssa.Function, []*ssa.Call) {
+	var chain []*ssa.Call
+	for depth := 0; depth < 4; depth++ {
+		if fn == nil || fn.Parent() != nil || fn.Pkg == nil || fn.Object() == nil || fn.Object().Exported() || IsKnown(fn) {
+			break
+		}
+		var site *ssa.Call
+		n := 0
+		for _, pf := range PkgFuncs(fn.Pkg) {
+			AllInstrs(pf, func(in ssa.Instruction) {
+				cc := CallOf(in)
+				for _, op := range in.Operands(nil) {
+					if op != nil && *op == ssa.Value(fn) && (cc == nil || cc.Value != ssa.Value(fn)) {
+						n += 2 // used as a value
+					}
+				}
+				if mc, ok := in.(*ssa.MakeClosure); ok {
+					if w, ok := mc.Fn.(*ssa.Function); ok && w != fn && BoundTarget(w) == fn {
+						n += 2
+					}
+				}
+				if cc != nil && StaticCallee(cc) == fn {
+					if call, ok := in.(*ssa.Call); ok {
+						site = call
+						n++
+					} else {
+						n += 2
+					}
+				}
+			})
+		}
+		if n != 1 || site == nil {
+			break
+		}
+		chain = append([]*ssa.Call{site}, chain...)
+		fn = site.Parent()
+	}
+	return fn, chain
+}
+
+// OwnerSub maps the parameters of a helper cut out of its logical owner (and of the helpers in between) to the arguments at
+// the single call sites, for rendering a value of the helper in the owner's terms (RenderSubst).
+func OwnerSub(fn *ssa.Function) map[ssa.Value]ssa.Value {
+	sub := map[ssa.Value]ssa.Value{}
+	_, chain := LogicalOwner(fn)
+	for _, site := range chain {
+		cal := StaticCallee(&site.Call)
+		if cal == nil {
+			continue
+		}
+		for i, prm := range cal.Params {
+			if i < len(site.Call.Args) {
+				sub[prm] = site.Call.Args[i]
+			}
+		}
+	}
+	return sub
 }
 
 func rootOf(fn *ssa.Function) *ssa.Function {
